@@ -272,7 +272,9 @@ def _generate_mask(vertices, x, y):
 
     xxyy = truenp.stack((xx, yy), axis=2)
     # use delaunay to fill from the vertices and produce a mask
-    triangles = spatial.Delaunay(vertices, qhull_options='QJ Qf')
+    # scipy's default options (Qbb Qc Qz): Qz, a point at infinity, lets qhull triangulate exactly
+    # three vertices (a triangle) and handles cocircular vertices (every regular polygon) without joggling
+    triangles = spatial.Delaunay(vertices)
     mask = ~(triangles.find_simplex(xxyy) < 0)
     return mask
 
